@@ -23,7 +23,7 @@ ASSUMPTIONS = ['the reader accepts any run of spaces/newlines between tokens and
                'time types are not read (counted)', 'NaN has no GSER representation: an EncodeError for NaN is accepted']
 REPORT = ['modules', 'evaluations', 'texts_read_back', 'strings_with_quote', 'empty_bit_or_octet_strings', 'reals', 'collision_checks',
           'reader_not_applicable', 'carved_out']
-FLOORS = {'quick': {'evaluations': 15000, 'texts_read_back': 12000, 'strings_with_quote': 300, 'reals': 1000},
+FLOORS = {'quick': {'evaluations': 12000, 'texts_read_back': 10000, 'strings_with_quote': 300, 'reals': 1000},
           'thorough': {'evaluations': 150000}}
 TIMEOUT = {'quick': 1800, 'thorough': 14000}
 INDENTS = [None, 0, 2, 4]
@@ -35,7 +35,7 @@ def shards(tier):
 
 def params(tier):
     if tier == 'quick':
-        return {'modules': 6, 'values': 10}
+        return {'modules': 8, 'values': 12}
     return {'modules': 24, 'values': 16}
 
 
